@@ -248,6 +248,11 @@ pub fn run_batch<R: Rig>(rig: &R, opts: &BatchOpts) -> BatchResult {
     let next = AtomicU64::new(0);
     let agg = Mutex::new(Agg::<R::Sc>::default());
     let trace_runs = std::env::var("VERIF_TRACE_RUNS").is_ok();
+    let wall_cap: u64 = std::env::var("VERIF_WALL_SECS").ok().and_then(|s| s.parse().ok()).unwrap_or(match opts.tier {
+        Tier::Quick => 900,
+        Tier::Thorough => 6 * 3600,
+    });
+    let stopped_early = std::sync::atomic::AtomicBool::new(false);
     println!("[{}] rig={} tier={:?} seed={} runs={} jobs={}", prop, rig.rig_name(), opts.tier, opts.seed, n, opts.jobs);
 
     std::thread::scope(|s| {
@@ -257,6 +262,14 @@ pub fn run_batch<R: Rig>(rig: &R, opts: &BatchOpts) -> BatchResult {
                 loop {
                     let i = next.fetch_add(1, Ordering::Relaxed);
                     if i >= n {
+                        break;
+                    }
+                    // safety net against a tree on which runs have become pathologically slow:
+                    // stop handing out new runs; what was found so far is reported as usual
+                    if t0.elapsed().as_secs() > wall_cap {
+                        if !stopped_early.swap(true, Ordering::Relaxed) {
+                            println!("[{}] wall budget of {} s reached after about {} runs: no further runs are started", prop, wall_cap, i);
+                        }
                         break;
                     }
                     let seed_i = mix(opts.seed, prop, i);
